@@ -812,7 +812,9 @@ def _flush_item(run, out, kind, case, i, data, j=None):
         else:
             arrs = [] if t[1] == "-" else [[] if a == "-" else [int(x) for x in a.split(",")] for a in t[1].split(";")]
             impl_arrs = [r[3] if isinstance(r[3], str) else [int(v) for v in r[3]] for r in rec]
-            if impl_arrs != arrs:
+            if not rec:
+                run.count("helper-not-called:seed-stream-model-skipped")      # nothing was recorded at the private hook
+            elif impl_arrs != arrs:
                 run.mismatch(case, dict(simulated_catalogs=impl_arrs), dict(simulated_catalogs_from_seed_stream=arrs))
     elif kind in ("seeded-model", "seeded-model-m"):
         if out[i] == "not-finished":
@@ -1732,6 +1734,9 @@ def seeded_model(run, drv, pending, case, module, masked, conditional, rates, Or
     """the seeded test as ONE model function of (rate array, observed array, seed): nothing but the seed is handed to the model,
     which seeds its own MT19937, draws rand(n) / uniform(0,1) / (forecast mean < 10) the Poisson numbers, and simulates."""
     if not rng_model_ok(run) or not (0 <= int(seed) < 2 ** 32):
+        return
+    if not rec:
+        run.count("helper-not-called:seed-only-model-skipped")          # nothing was recorded at the private hook
         return
     impl = [r[3] if isinstance(r[3], str) else [int(v) for v in r[3]] for r in rec]
     obstxt = ",".join(str(int(v)) for v in Or) if len(Or) else "-"
